@@ -627,7 +627,9 @@ def main_check(mod):
         "coverage": {
             "obligations": obligations,
             "discharged": discharged,
-            "checker_cmd": "make -C /verif/coq %s (coqc 8.16.1, full .vo build)" % (mod.THEOREM_FILE[:-2] + ".vo"),
+            "checker_cmd": "make -C /verif/coq %s (coqc 8.16.1, full .vo build)" % " ".join(
+                f[:-2] + ".vo" for f in [mod.THEOREM_FILE] + extra_files),
+            "theorem_files": [mod.THEOREM_FILE] + extra_files,
             "trusted_base": mod.TRUSTED,
             "statements": thms,
             "print_assumptions": assumptions,
